@@ -54,6 +54,70 @@ Theorem C11_instants_data_independent : forall tstep istep cond f1 f2 t inc idx 
 Proof. exact positions_in_fuel_mono. Qed.
 End C11.
 
+(** End to end, every arithmetic (the Flocq instances included), with masks: non-interference between channels.  Two calls
+    that agree on the control record, the stored mask, the mask argument and everything belonging to channel c return
+    the same control record, counts, new internal buffer of channel c and output slice of channel c -- whatever the other
+    channels hold; a masked channel's output slice comes back as it was passed in. *)
+From Rubato.Proofs Require Import NonInterfP NonInterfFftP.
+From Rubato.Gen Require Import SynchroGen.
+
+Theorem C11_async_noninterference : forall (C : CNum) (S : SNum C) St (A : arch St) (s1 s2 : astate St)
+    wi1 wi2 wo1 wo2 m c b o mc s1' s2' cnt1 cnt2 o1 o2,
+  as_ctl s1 = as_ctl s2 -> as_mask s1 = as_mask s2 ->
+  nth_error (as_buf s1) c = Some b -> nth_error (as_buf s2) c = Some b ->
+  nth_error wi1 c = nth_error wi2 c ->
+  nth_error wo1 c = Some o -> nth_error wo2 c = Some o ->
+  nth_error (eff_mask s1 m) c = Some mc ->
+  pib A s1 wi1 wo1 m = Ok (s1', cnt1, o1) -> pib A s2 wi2 wo2 m = Ok (s2', cnt2, o2) ->
+  as_ctl s1' = as_ctl s2' /\ cnt1 = cnt2 /\ as_mask s1' = as_mask s2' /\
+  exists b' o', nth_error (as_buf s1') c = Some b' /\ nth_error (as_buf s2') c = Some b' /\
+                nth_error o1 c = Some o' /\ nth_error o2 c = Some o' /\
+                (mc = false -> o' = o).
+Proof. intros C S St. exact (@pib_channel_noninterference C S St). Qed.
+
+Theorem C11_fft_in_noninterference : forall (C : CNum) (S : SNum C) unit_fn (s1 s2 : fstate FftFixedIn)
+    wi1 wi2 wo1 wo2 m c wic woc ib ov mc s1' s2' c1 c2 o1 o2,
+  fs_ctl s1 = fs_ctl s2 -> fs_mask s1 = fs_mask s2 ->
+  nth_error (fs_overlaps s1) c = Some ov -> nth_error (fs_overlaps s2) c = Some ov ->
+  nth_error (fs_bufs s1) c = Some ib -> nth_error (fs_bufs s2) c = Some ib ->
+  nth_error wi1 c = Some wic -> nth_error wi2 c = Some wic ->
+  nth_error wo1 c = Some woc -> nth_error wo2 c = Some woc ->
+  nth_error (eff_fmask s1 m) c = Some mc ->
+  xi_pib unit_fn s1 wi1 wo1 m = Ok (s1', c1, o1) -> xi_pib unit_fn s2 wi2 wo2 m = Ok (s2', c2, o2) ->
+  fs_ctl s1' = fs_ctl s2' /\ c1 = c2 /\
+  exists ov' ib' o', nth_error (fs_overlaps s1') c = Some ov' /\ nth_error (fs_overlaps s2') c = Some ov' /\
+                     nth_error (fs_bufs s1') c = Some ib' /\ nth_error (fs_bufs s2') c = Some ib' /\
+                     nth_error o1 c = Some o' /\ nth_error o2 c = Some o' /\ (mc = false -> o' = woc /\ ov' = ov /\ ib' = ib).
+Proof. intros C S. exact (@xi_channel_noninterference C S). Qed.
+
+Theorem C11_fft_out_noninterference : forall (C : CNum) (S : SNum C) unit_fn (s1 s2 : fstate FftFixedOut)
+    wi1 wi2 wo1 wo2 m c wic woc ob ov mc s1' s2' c1 c2 o1 o2,
+  fs_ctl s1 = fs_ctl s2 -> fs_mask s1 = fs_mask s2 ->
+  nth_error (fs_overlaps s1) c = Some ov -> nth_error (fs_overlaps s2) c = Some ov ->
+  nth_error (fs_bufs s1) c = Some ob -> nth_error (fs_bufs s2) c = Some ob ->
+  nth_error wi1 c = Some wic -> nth_error wi2 c = Some wic ->
+  nth_error wo1 c = Some woc -> nth_error wo2 c = Some woc ->
+  nth_error (eff_fmask s1 m) c = Some mc ->
+  xo_pib unit_fn s1 wi1 wo1 m = Ok (s1', c1, o1) -> xo_pib unit_fn s2 wi2 wo2 m = Ok (s2', c2, o2) ->
+  fs_ctl s1' = fs_ctl s2' /\ c1 = c2 /\
+  exists ov' ob' o', nth_error (fs_overlaps s1') c = Some ov' /\ nth_error (fs_overlaps s2') c = Some ov' /\
+                     nth_error (fs_bufs s1') c = Some ob' /\ nth_error (fs_bufs s2') c = Some ob' /\
+                     nth_error o1 c = Some o' /\ nth_error o2 c = Some o' /\ (mc = false -> o' = woc /\ ov' = ov /\ ob' = ob).
+Proof. intros C S. exact (@xo_channel_noninterference C S). Qed.
+
+Theorem C11_fft_inout_noninterference : forall (C : CNum) (S : SNum C) unit_fn (s1 s2 : fstate FftFixedInOut)
+    wi1 wi2 wo1 wo2 m c wic woc ov mc s1' s2' c1 c2 o1 o2,
+  fs_ctl s1 = fs_ctl s2 -> fs_mask s1 = fs_mask s2 ->
+  nth_error (fs_overlaps s1) c = Some ov -> nth_error (fs_overlaps s2) c = Some ov ->
+  nth_error wi1 c = Some wic -> nth_error wi2 c = Some wic ->
+  nth_error wo1 c = Some woc -> nth_error wo2 c = Some woc ->
+  nth_error (eff_fmask s1 m) c = Some mc ->
+  xio_pib unit_fn s1 wi1 wo1 m = Ok (s1', c1, o1) -> xio_pib unit_fn s2 wi2 wo2 m = Ok (s2', c2, o2) ->
+  fs_ctl s1' = fs_ctl s2' /\ c1 = c2 /\
+  exists ov' o', nth_error (fs_overlaps s1') c = Some ov' /\ nth_error (fs_overlaps s2') c = Some ov' /\
+                 nth_error o1 c = Some o' /\ nth_error o2 c = Some o' /\ (mc = false -> o' = woc /\ ov' = ov).
+Proof. intros C S. exact (@xio_channel_noninterference C S). Qed.
+
 (** End to end, ideal arithmetic, calls without a mask (corollaries of the stream theorems of C05): channel c of an n-channel
     FastFixedIn / SincFixedIn produces the stream a single-channel resampler produces from channel c's signal. *)
 From Coq Require Import Reals.
@@ -87,3 +151,7 @@ Print Assumptions C11_channel_projection.
 Print Assumptions C11_masked_untouched.
 Print Assumptions C11_fft_per_channel.
 Print Assumptions C11_instants_data_independent.
+Print Assumptions C11_async_noninterference.
+Print Assumptions C11_fft_in_noninterference.
+Print Assumptions C11_fft_out_noninterference.
+Print Assumptions C11_fft_inout_noninterference.
